@@ -296,7 +296,7 @@ def col_name(pair, naming):
 _FMTS = ["%.3f", "%.2f", "%.1f", "%d", "%.8f", "%.5f"]
 
 
-def static_table(subset, order, naming, lattice, nv, layout):
+def static_table(subset, order, naming, lattice, nv, layout, lathdr=0):
     """(text, expected) of a static table in which every slot holds a distinct number."""
     pairs = order_pairs(SUBSETS[subset], order)
     names = [("v" if layout == "crlf-tabs" else "V")] + [col_name(p, naming) for p in pairs]
@@ -317,7 +317,7 @@ def static_table(subset, order, naming, lattice, nv, layout):
                 "%.4f" % (2.9101 - 0.0503 * iv)] for iv in range(nv)]
     vref, cellmass = "586.01996000", "200.782"
     title = "V_0 N cellmass akimotoite (24.305+16.0*3+28.086)*2"
-    text = R.write_static(title, vref, nv, cellmass, names, rows, lat, layout)
+    text = R.write_static(title, vref, nv, cellmass, names, rows, lat, layout, lattice_header=R.LATTICE_HEADERS[lathdr])
     flat = [float(t) for r in rows for t in r] + ([float(t) for r in lat for t in r] if lat else [])
     if len(set(flat)) != len(flat):
         raise HarnessError("static table generator produced a repeated value")
@@ -377,7 +377,8 @@ def _cmp_static(got, exp, prefix, viol, what):
 
 def _static_case(case):
     from cij.io.traditional.elast_dat import read_elast_data
-    text, exp = static_table(case["subset"], case["order"], case["naming"], case["lattice"], case["nv"], case["layout"])
+    text, exp = static_table(case["subset"], case["order"], case["naming"], case["lattice"], case["nv"], case["layout"],
+                             case.get("lathdr", 0))
     viol = []
     d = tempfile.mkdtemp(dir="/dev/shm", prefix="c17s-")
     try:
@@ -401,8 +402,8 @@ def _static_case(case):
             "rows": rp["rows"], "lattice": rp["lattice"]}
     if mine != exp:
         raise HarnessError("io_ref does not read back its own static table")
-    return {"viol": viol, "outcome": f"static/{case['subset']}/{case['naming']}/lat{int(case['lattice'])}" if not viol else "violation",
-            "key": "st" + "/".join(str(case[k]) for k in ("subset", "order", "naming", "lattice", "nv", "layout"))}
+    return {"viol": viol, "outcome": f"static/{case['subset']}/{case['naming']}/lat{int(case['lattice'])}/hdr{case.get('lathdr', 0)}" if not viol else "violation",
+            "key": "st" + "/".join(str(case.get(k, 0)) for k in ("subset", "order", "naming", "lattice", "nv", "layout", "lathdr"))}
 
 
 # =========================================================================== fill command
@@ -430,7 +431,7 @@ def _dec_text(x: Decimal) -> str:
 
 
 def fill_table(system, numstyle, given, case_letter, order, nv, lattice, layout, vref="586.01996000",
-               cellmass="200.782", variant=0, valuekind="consistent"):
+               cellmass="200.782", variant=0, valuekind="consistent", lathdr=0):
     """(text, info): a table that is sufficient for `system` and consistent with it.
     `variant` k shifts every number (components, volumes, lattice parameters) so that two tables differ in every slot.
     info: volumes (Decimal), full: per volume {pair: Decimal} of all 21 components as they must come
@@ -516,7 +517,7 @@ def fill_table(system, numstyle, given, case_letter, order, nv, lattice, layout,
                 "%.15f" % (2.910090805459099 - 0.0503 * iv + 0.0007 * variant)] for iv in range(nv)]
     names = ["V"] + [R.name_2digit(p, case_letter) for p in cols]
     title = f"V_0 N cellmass {system} (24.305+16.0*3+28.086)*2"
-    text = R.write_static(title, vref, nv, cellmass, names, rows, lat, layout)
+    text = R.write_static(title, vref, nv, cellmass, names, rows, lat, layout, lattice_header=R.LATTICE_HEADERS[lathdr])
     vals = [tab[iv][p] for iv in range(nv) for p in indep]
     if len(set(vals)) != len(vals) or any(v == 0 for v in vals):
         raise HarnessError(f"fill table generator: repeated or zero independent value for {system}")
@@ -642,7 +643,7 @@ def _fill_case(case):
     numstyle = case["numstyle"]
     vkind = case.get("valuekind", "consistent")
     text, info = fill_table(system, numstyle, case["given"], case["letter"], case["order"], case["nv"],
-                            case["lattice"], case["layout"], valuekind=vkind)
+                            case["lattice"], case["layout"], valuekind=vkind, lathdr=case.get("lathdr", 0))
     in_parse = R.parse_static(text)
     viol = []
     d = tempfile.mkdtemp(dir="/dev/shm", prefix="c17f-")
@@ -742,7 +743,7 @@ def _fill_case(case):
 
 def _fill_key(case):
     return "fi" + "/".join(str(case.get(k, "consistent")) for k in ("system", "numstyle", "given", "valuekind", "letter", "order", "nv",
-                                                                     "lattice", "layout"))
+                                                                     "lattice", "layout", "lathdr"))
 
 
 def chain_ops(system):
@@ -1161,13 +1162,18 @@ def phonon_cases():
 
 
 def static_cases():
-    return [{"kind": "static", "subset": sub, "order": o, "naming": n, "lattice": lat, "nv": nv, "layout": lay}
-            for sub in SUBSETS for o in ORDERS for n in NAMINGS for lat in (False, True) for nv in STATIC_NV
-            for lay in STATIC_LAYOUTS]
+    out = [{"kind": "static", "subset": sub, "order": o, "naming": n, "lattice": lat, "nv": nv, "layout": lay, "lathdr": 0}
+           for sub in SUBSETS for o in ORDERS for n in NAMINGS for lat in (False, True) for nv in STATIC_NV
+           for lay in STATIC_LAYOUTS]
+    # spelling of the one-line header of the lattice block (only where there is a block); crossed with what the
+    # block depends on (subset = row width before it, n_V = its length, layout = blanks / line ends around it)
+    out += [{"kind": "static", "subset": sub, "order": "voigt", "naming": "c11", "lattice": True, "nv": nv, "layout": lay, "lathdr": h}
+            for h in range(1, len(R.LATTICE_HEADERS)) for sub in SUBSETS for nv in STATIC_NV for lay in STATIC_LAYOUTS]
+    return out
 
 
 FILL_MINOR = OrderedDict([("letter", ["c", "C"]), ("order", ["voigt", "reversed"]), ("nv", [4, 1, 9]),
-                          ("layout", ["plain", "crlf-tabs", "padded"])])
+                          ("layout", ["plain", "crlf-tabs", "padded"]), ("lathdr", [0, 1, 2, 3, 4])])
 
 
 def fill_cases(quick):
@@ -1183,8 +1189,11 @@ def fill_cases(quick):
             for g in GIVEN:
                 for lat in (0, 1):
                     for cfg, k in minors:
+                        if cfg["lathdr"] and not (lat and ns == "float" and g == "independent"):
+                            continue    # the header spelling exists only with a block; crossed with systems and presentation only
                         out.append({"kind": "fill", "system": s, "numstyle": ns, "given": g, "valuekind": "consistent", "lattice": lat,
                                     "letter": cfg["letter"], "order": cfg["order"], "nv": cfg["nv"], "layout": cfg["layout"],
+                                    "lathdr": cfg["lathdr"],
                                     "chain": ops if (not quick or k == 0) else ops[:1]})
         # value kind "within-tolerance": tabulated components over-determine the relations and disagree slightly.
         # Only where something can disagree: a system with dependent components, and a dependent one tabulated.
@@ -1195,6 +1204,8 @@ def fill_cases(quick):
                 for g in OVERDET_GIVEN:
                     for lat in (0, 1):
                         for cfg, k in minors:
+                            if cfg["lathdr"]:
+                                continue
                             out.append({"kind": "fill", "system": s, "numstyle": ns, "given": g, "valuekind": "within-tolerance",
                                         "lattice": lat, "letter": cfg["letter"], "order": cfg["order"], "nv": cfg["nv"],
                                         "layout": cfg["layout"], "chain": []})
@@ -1213,11 +1224,12 @@ def explore(ctx):
         "inwards; physical: descending V, negative E, negative acoustic frequencies at Gamma) x 4 (nm,na) x 2 comment "
         "lines, every slot of a data set holding a distinct number. static: 4 component subsets x 3 column orders x 6 "
         "column spellings x lattice block absent/present x n_V in {1,2,9} x 3 shipped presentations (blanks, padded, "
-        "CRLF+tabs), every slot distinct. fill: 9 systems x 4 number styles x {independent, all non-vanishing} "
+        "CRLF+tabs), every slot distinct; plus, with a lattice block, 4 further spellings of its one-line header (upper case, "
+        "`a b c`, a `#` comment, a sentence) x subsets x n_V x presentations. fill: 9 systems x 4 number styles x {independent, all non-vanishing} "
         "components given x lattice block (full product), plus value kind `within-tolerance` (tabulated dependent components "
         "disagree with their relation by 0.04..0.08, residual <= half the tolerance) x 6 systems with dependent components x "
         "{float, 9-decimal} x {independent + one dependent, all non-vanishing} given x lattice block; each x deviation lattice over presentation {c/C, column order, n_V in "
-        "{4,1,9}, layout in {plain, CRLF+tabs, padded}}: bound 1 in quick, full product in thorough; mode B: histories of "
+        "{4,1,9}, layout in {plain, CRLF+tabs, padded}, lattice-header spelling (5, only with a block, float/independent)}: bound 1 in quick, full product in thorough; mode B: histories of "
         "length 2 (second `fill` over the enabled systems: same, triclinic, sufficient sub-symmetries; in quick the full "
         "second alphabet only at the default presentation, `same` elsewhere). phonon and static products are complete in "
         "both tiers. shipped example files: cij reader against the independent parser, and the command on each shipped "
@@ -1249,6 +1261,8 @@ def explore(ctx):
         "(C09 bounds that by sqrt(residual_atol)); asserted instead: equality with that reference and with the library "
         "fill at the printed precision, and exact validity (printed precision) of every relation whose dependent "
         "component was not tabulated",
+        "the lattice block is introduced by any one non-blank, non-numeric line (the statement does not fix its spelling; "
+        "the shipped files spell it lattice_a lattice_b lattice_c with varying blanks)",
         "header lines and lattice block are compared verbatim after removing line terminators (CRLF input is re-emitted "
         "with LF by text-mode I/O)",
     ]
@@ -1260,6 +1274,7 @@ def explore(ctx):
     # (static cases cost ~3 ms each; the engine's map chunks of up to 64 cases keep the pool overhead negligible)
     ctx.run(MOD, "run_case", ph, part="phonon-roundtrip")
     ctx.run(MOD, "run_case", st, part="static-read")
+    ctx.run_under(MOD, "run_case", ph[:2] + st[:2] + st[-1:], ("-O",))   # interpreter started with -O (asserts stripped)
     n_hist = sum(1 + len(c["chain"]) for c in fi)
     ctx.run(MOD, "run_case", fi, part="fill-command+chain", states=n_hist, transitions=n_hist)
     full_minor, _ = lattice_size(FILL_MINOR, None)
@@ -1275,7 +1290,7 @@ def explore(ctx):
     ctx.notes["alphabets"] = {
         "phonon": {"shapes": len(SHAPES), "families": len(FAMILIES), "nm_na": len(NMNA), "comments": len(COMMENTS),
                    "cases": len(ph), "largest_data_set_slots": 12 * (3 + 10 * 63) + 40},
-        "static": {"subsets": {k: len(v) for k, v in SUBSETS.items()}, "orders": len(ORDERS), "spellings": NAMINGS,
+        "static": {"lattice_header_spellings": R.LATTICE_HEADERS, "subsets": {k: len(v) for k, v in SUBSETS.items()}, "orders": len(ORDERS), "spellings": NAMINGS,
                    "lattice": 2, "n_V": STATIC_NV, "layouts": STATIC_LAYOUTS, "cases": len(st)},
         "fill": {"systems": len(SYSTEM_NAMES), "number_styles": NUMSTYLES, "given": GIVEN, "lattice": 2,
                  "value_kinds": VALUEKINDS, "within_tolerance": {"systems": [s for s in SYSTEM_NAMES if R.SYSTEMS[s]["dependent"]],
@@ -1325,8 +1340,10 @@ def selftest():
     chk("voigt_key orbit sizes", sorted(cnt.values()) == [1] * 3 + [2] * 3 + [4] * 12 + [8] * 3 and len(cnt) == 21)
     # 2. static writer/parser are inverse on every enumerated table (static_table also asserts distinct slots)
     for c in static_cases():
-        text, exp = static_table(c["subset"], c["order"], c["naming"], c["lattice"], c["nv"], c["layout"])
+        text, exp = static_table(c["subset"], c["order"], c["naming"], c["lattice"], c["nv"], c["layout"], c["lathdr"])
         rp = R.parse_static(text)
+        if c["lathdr"]:
+            chk("lattice header spelling is on the page", rp["lattice_lines"][0] == R.LATTICE_HEADERS[c["lathdr"]] and len(rp["lattice"]) == c["nv"])
         chk("static write/parse inverse", {k: rp[k] for k in ("vref", "nv", "cellmass", "volumes", "rows", "lattice")} == exp)
     # 3. phonon parser against a file written here in the shipped (Fortran-like) layout, and distinctness
     for shape in ((1, 1, 3), (2, 2, 6), (12, 10, 60)):
